@@ -51,6 +51,8 @@ impl Example {
             writeln!(&mut wtr, "{}\t{}", word.surface, word.feature)?;
         }
         writeln!(&mut wtr, "EOS")?;
+        // A BufWriter dropped without flush() discards write errors.
+        wtr.flush()?;
         Ok(())
     }
 
